@@ -75,6 +75,12 @@ def sources(tier, seed, ctx):
                 # e-gates: node 4 (perm[0]), node 7 = NOT(NAND) (perm[2]), node 6 = AND(b,a,b) (perm[1])
                 for name in ('MEG', 'cleanup_heavy'):
                     srcs.append({'net': [3, gs], 'outs': [o + 2 for o in outs], 'variant': 'plain', 'vs': 0, 'pass': name, 'labels': labels})
+    # many inputs (17, 18): equivalent but not duplicate gates (OR(a, b) and NAND(NOT a, NOT b)) under the heavy clean-up, the
+    # equivalence pass alone and in a pipe - "heavy" means the same thing at every size
+    for ni in ([17] if tier == 'quick' else [16, 17, 18, 20]):
+        gs = [['OR', [1, 2]], ['NOT', [1]], ['NOT', [2]], ['NAND', [ni + 2, ni + 3]], ['AND', [ni + 1, 3]], ['XOR', [ni + 4, 4]]]
+        for name, extra in (('cleanup_heavy', {}), ('MEG', {}), ('pipeline', {'leaves': ['MDG', 'MEG'], 'shape': 'pipe'})):
+            srcs.append(dict({'net': [ni, gs], 'outs': [ni + 5, ni + 6], 'variant': 'plain', 'vs': 0, 'pass': name}, **extra))
     # deep circuits through pipelines of every shape
     for depth in ([1500] if tier == 'quick' else [1500, 4000]):
         for j, shape in enumerate(P.SHAPES):
